@@ -1,4 +1,4 @@
-import MemcVerif.Proofs.Ops
+import MemcVerif.Proofs.Frame
 /-!
 # C01 — stored data is returned exactly (read-your-writes, key isolation, no loss without eviction)
 
@@ -32,83 +32,10 @@ def Foreign (k : Key) (op : Op) : Prop :=
   | .nop => True
   | _ => ∃ k', op.key = some k' ∧ k' ≠ k
 
-theorem cmd_frame_get {k k' : Key} (s : MemStore) (now : Nat) (h : k' ≠ k) :
-    (memOps.get s now k).1.mem.lookup k' = s.mem.lookup k' := get_lookup_ne s now h
-
 /-- **key isolation**: a command addressed to `k` leaves the physical record of every other key
     untouched — hence what any later command returns for that key. All nine command kinds. -/
 theorem C01_frame (s : MemStore) (now : Nat) (op : Op) (k k' : Key) (hk : op.key = some k) (hne : k' ≠ k) :
-    (applyOp s now op).1.mem.lookup k' = s.mem.lookup k' := by
-  cases op with
-  | get k0 =>
-    simp only [Op.key, Option.some.injEq] at hk; subst hk
-    simp only [applyOp]
-    have := get_lookup_ne s now hne
-    split <;> rename_i h <;> simp [h] at this <;> exact this
-  | set k0 r =>
-    simp only [Op.key, Option.some.injEq] at hk; subst hk
-    simp only [applyOp]; exact set_lookup_ne s now r hne
-  | add k0 r =>
-    simp only [Op.key, Option.some.injEq] at hk; subst hk
-    simp only [applyOp, Cmd.add, memOps]
-    have hg := get_lookup_ne s now hne
-    split
-    · rename_i s' _ h; simp [h] at hg; exact hg
-    · rename_i s' _ h; simp [h] at hg; rw [set_lookup_ne _ _ _ hne]; exact hg
-  | replace k0 r =>
-    simp only [Op.key, Option.some.injEq] at hk; subst hk
-    simp only [applyOp, Cmd.replace, memOps]
-    have hg := get_lookup_ne s now hne
-    split
-    · rename_i s' _ h; simp [h] at hg; rw [set_lookup_ne _ _ _ hne]; exact hg
-    · rename_i s' _ h; simp [h] at hg; exact hg
-  | append k0 r =>
-    simp only [Op.key, Option.some.injEq] at hk; subst hk
-    simp only [applyOp, Cmd.append, memOps]
-    have hg := get_lookup_ne s now hne
-    split
-    · rename_i s' _ h; simp [h] at hg; rw [set_lookup_ne _ _ _ hne]; exact hg
-    · rename_i s' _ h; simp [h] at hg; exact hg
-  | prepend k0 r =>
-    simp only [Op.key, Option.some.injEq] at hk; subst hk
-    simp only [applyOp, Cmd.prepend, memOps]
-    have hg := get_lookup_ne s now hne
-    split
-    · rename_i s' _ h; simp [h] at hg; rw [set_lookup_ne _ _ _ hne]; exact hg
-    · rename_i s' _ h; simp [h] at hg; exact hg
-  | delta k0 hd d i inc =>
-    simp only [Op.key, Option.some.injEq] at hk; subst hk
-    have key : (Cmd.addDelta memOps s now hd k0 d i inc).1.mem.lookup k' = s.mem.lookup k' := by
-      simp only [Cmd.addDelta, memOps]
-      have hg := get_lookup_ne s now hne
-      rcases hget : s.get now k0 with ⟨s', res⟩
-      rw [hget] at hg; simp only at hg
-      cases res with
-      | ok rec =>
-        simp only
-        cases hp : parseU64 rec.value with
-        | none => simpa using hg
-        | some v =>
-          simp only
-          rcases hs : s'.set now k0 _ with ⟨s'', res2⟩
-          have := set_eq_lookup_ne hs hne
-          cases res2 <;> simp only <;> rw [this] <;> exact hg
-      | error e =>
-        simp only
-        split
-        · rcases hs : s'.set now k0 _ with ⟨s'', res2⟩
-          have := set_eq_lookup_ne hs hne
-          cases res2 <;> simp only <;> rw [this] <;> exact hg
-        · exact hg
-    simp only [applyOp]
-    split <;> rename_i h <;> simp [h] at key <;> exact key
-  | delete k0 cas =>
-    simp only [Op.key, Option.some.injEq] at hk; subst hk
-    simp only [applyOp]
-    have := delete_lookup_ne s cas hne
-    split <;> rename_i h <;> simp [h] at this <;> exact this
-  | flush t => simp [Op.key] at hk
-  | nop => simp [Op.key] at hk
+    (applyOp s now op).1.mem.lookup k' = s.mem.lookup k' := applyOp_frame s now op k k' hk hne
 
 theorem foreign_step (s : MemStore) (now : Nat) (op : Op) (k : Key) (h : Foreign k op) :
     (applyOp s now op).1.mem.lookup k = s.mem.lookup k := by
@@ -308,6 +235,5 @@ end Memc
 #print axioms Memc.C01_frame
 #print axioms Memc.C01_read_your_writes
 #print axioms Memc.C01_no_loss
-#print axioms Memc.cmd_frame_get
 #print axioms Memc.foreign_step
 #print axioms Memc.foreign_history
